@@ -33,7 +33,7 @@ TSpec == TInit /\ [][TNext]_tvars
 
 Track == IF l > TLCGet(1) THEN TLCSet(1, l) ELSE TRUE
 Accepted == \/ TLCGet(1) = Len(Rec) + 1
-            \/ PrintT(<<"REJECT", TLCGet(1), IF TLCGet(1) <= Len(Rec) THEN Rec[TLCGet(1)] ELSE "eof">>) /\ FALSE
+            \/ PrintT(<<"REJECT", TLCGet(1)>>) /\ FALSE
 \* the invariants of CmdList, guarded for the idle phase before the first reset
 TRanIsPrefix == phase = "run" => RanIsPrefix
 TCorrect == phase = "run" => Correct
